@@ -75,6 +75,7 @@ def run_variant(job):
     system = probes.clock_system(sysmode, d, s1, s2, dt, start, energies=energies,
                                  rot=None if rot_kind == "id" else rot, calls=calls)
 
+    calls.clear()       # drop the calls made by the constructor's dimension probe
     kw = {}
     if k != KNONE:
         if var.get("memory", "dkmax") == "tcut":
@@ -85,15 +86,28 @@ def run_variant(job):
         kw["add_correlation_time"] = np.inf
     elif a != ANONE:
         kw["add_correlation_time"] = a * dt
-    params = oqupy.TempoParameters(dt=dt, epsrel=1e-15,
-                                   subdiv_limit=var.get("subdiv", None), **kw)
-    bath = oqupy.Bath(coupling, sd)
     unique = bool(var.get("unique", False))
     mismatch = []
     info = {}
     end_time = start + n_steps * dt + 0.25 * dt       # off-grid end: floor is unambiguous
+    method = var.get("method")
     try:
-        if case["alg"] == "row":
+        params = oqupy.TempoParameters(dt=dt, epsrel=1e-15,
+                                       subdiv_limit=var.get("subdiv", None), **kw)
+        bath = oqupy.Bath(coupling, sd)
+        if method == "mf":
+            # mean-field TEMPO with a system that ignores the field and a zero field
+            # equation of motion: must evolve exactly as plain TEMPO (row algorithm)
+            hsys = system.hamiltonian if sysmode == "td" else (lambda t, _h=system.hamiltonian: _h)
+            fsys = oqupy.TimeDependentSystemWithField(lambda t, a: hsys(t))
+            mfs = oqupy.MeanFieldSystem([fsys], field_eom=lambda t, states, a: 0.0)
+            mft = oqupy.MeanFieldTempo(mfs, [bath], params, [rho0], 0.5 + 0.25j, start,
+                                       unique=unique)
+            mfd = mft.compute(end_time, progress_type="silent")
+            dyn = mfd.system_dynamics[0]
+            if np.max(np.abs(np.array(mfd.fields) - (0.5 + 0.25j))) > 1e-12:
+                mismatch.append({"what": "field", "detail": "zero field_eom changed the field"})
+        elif case["alg"] == "row":
             tempo = oqupy.Tempo(system, bath, params, rho0, start, unique=unique)
             dyn = tempo.compute(end_time, progress_type="silent")
         else:
@@ -141,6 +155,29 @@ def run_variant(job):
             seenw.append(r)
     if got_reqs != seenw:
         mismatch.append({"what": "requests", "expected": seenw, "observed": got_reqs})
+    # times handed to the user's H(t): the sampling pattern of each step (binds system.py
+    # get_propagators and the start_time both methods use)
+    if sysmode == "td" and method != "mf":
+        xs = np.array([(t - start) / dt for t in calls])
+        bad = None
+        if len(xs) == 0:
+            bad = "H(t) never called"
+        elif var.get("subdiv", None) is None:
+            frac = xs - np.floor(xs)
+            if not np.all((np.abs(frac - 0.25) < 1e-9) | (np.abs(frac - 0.75) < 1e-9)):
+                bad = "sample off the dt/4, 3dt/4 pattern: %s" % sorted(set(np.round(frac, 6)))[:6]
+            want = sorted([kk + 0.25 for kk in range(n_expect)] + [kk + 0.75 for kk in range(n_expect)])
+            got = sorted(set(np.round(xs, 9)))
+            if bad is None and not np.allclose(got, want, atol=1e-9) if len(got) == len(want) else True:
+                bad = bad or "steps sampled %s, expected %s" % (got[:12], want[:12])
+        else:
+            if xs.min() < -1e-9 or xs.max() > n_expect + 1e-9:
+                bad = "integration nodes outside [start, start + n dt]: [%g, %g]" % (xs.min(), xs.max())
+            halves = set(np.floor(xs * 2 + 1e-9).astype(int))
+            if bad is None and not set(range(2 * n_expect)) <= halves:
+                bad = "half-steps never sampled: %s" % sorted(set(range(2 * n_expect)) - halves)
+        if bad:
+            mismatch.append({"what": "hcalls", "detail": bad})
     info["n"] = n_have
     info["hcalls"] = len(calls)
     return {"mismatch": mismatch, "info": info}
